@@ -155,15 +155,15 @@ Theorem C17_scaled_solves_Qc (A : crs QcS) (s y f : vec QcS) n :
 Proof. exact (C17_scaled_solves_field QcS QcS_field QcS_eqb A s y f n). Qed.
 Print Assumptions C17_scaled_solves_Qc.
 
-(* non-vacuity *)
-Example C17_nonvacuous_reorder :
-  let A : crs QcS := mkCrs 3 [[(0, qc 2 1); (1, qc 1 1)]; [(1, qc 3 1)]; [(0, qc 1 1); (2, qc 4 1)]]%nat in
+(* non-vacuity: the hypotheses are satisfiable and the views compute (any Scalar) *)
+Example C17_nonvacuous_reorder (S : Scalar) :
+  let A : crs S := mkCrs 3 [[(0, s1); (1, s0)]; [(1, s1)]; [(0, s0); (2, s1)]]%nat in
   let perm := [2; 0; 1]%nat in
   Permutation perm (seq 0 3) /\ wf A = true /\
   inv_perm perm [7; 7; 7]%nat = [1; 2; 0]%nat /\
   to_crs (reorder_adapter (crs_view A) perm (inv_perm perm [7;7;7]%nat))
-  = mkCrs 3 [[(1, qc 1 1); (0, qc 4 1)]; [(1, qc 2 1); (2, qc 1 1)]; [(2, qc 3 1)]]%nat.
+  = mkCrs 3 [[(1, s0); (0, s1)]; [(1, s1); (2, s0)]; [(2, s1)]]%nat.
 Proof.
-  cbv zeta. split; [|vm_compute; repeat split; reflexivity].
+  cbv zeta. split; [|repeat split; reflexivity].
   change (Permutation ([2] ++ [0; 1])%nat ([0; 1] ++ [2])%nat). apply Permutation_app_comm.
 Qed.
